@@ -12,5 +12,6 @@ func init() {
 		fns := libFuncs(c)
 		NoFab(c, "R-NOFAB", fns, 25)
 		LockClosures(c, "R-LOCK", fns, 4)
+		NextGuard(c, "R-NEXTGUARD", libPkgs(c))
 	})
 }
